@@ -35,6 +35,14 @@ CHECKS.update({
    text="TLC checks partition independence of the transcribed scanner for every placement of one or two borders on stored or well-formed internal keys at every revision. On the real code the engine's partition answer is replaced by seed-generated border sets (1-3 borders, on index records, inside a key's versions, unsorted); unlimited List, Count, whole-range streams and the concatenation of streams over the advertised partitions are judged against the reconstructed history (every key exactly once, batch revision = read revision, one terminator).",
    ref="6/C13"),
 })
+CHECKS.update({
+ "C05": dict(technique="TLA+ spec (KubeBrain.tla: sequencer poll/cache-insert/flush, hub, watcher subscribe/cache-read/decide/forward/close) model-checked by TLC; TLC schedules replayed through verif yield points on the real backend incl. real-capacity buffer overflow; TLC trace validation of every delivery",
+   text="TLC checks DeliveredIsPrefix / DeliveredIsInfix / RefusedDeliversNothing / CompleteAtQuiescence for all interleavings of registration with writes, all start revisions relative to the cache window (zero, below, inside, newest, above), cache sizes 1-2 (wrap) and subscriber buffers 1-2 with a consumer that may stall. Thousands of generated schedules are forced on the real Watch/hub/sequencer code through the yield points (memkv, TiKV mock, Badger); overflow of the real 10000-batch buffer is reached by scaling with empty batches. Every Recv/Closed is judged by the trace monitors (ordered, from start, prefix, matches a committed write, no skipped event, nothing after close, complete at quiescence).",
+   ref="6/C05"),
+ "C06": dict(technique="TLA+ invariant ListWatchAgree model-checked by TLC; replay of TLC schedules with list-then-watch clients on the real backend; TLC trace validation (ListWatchAgree: list result + delivered events = snapshot rebuilt from engine commits)",
+   text="A client that lists its prefix (served at R) and watches from R+1 is part of the model; TLC checks for all interleavings with writers that list result plus delivered events equals the snapshot at the last delivered revision. The same schedules are replayed on the real backend; the trace monitor recomputes the equation at every delivery against the history rebuilt from logged engine commits, and ReadIsSnapshot/NoSkip/DeliveredMatchesWrite cross-check read path and event path against the same history.",
+   ref="6/C06"),
+})
 NA = {
  "C19": "data-race freedom is a property of memory accesses under the Go memory model; a TLA+ specification has no notion of an unsynchronised access and trace validation cannot observe one (see DESIGN.md section 6, C19)",
 }
